@@ -42,6 +42,7 @@ type spec struct {
 	MinStats  map[string]int64 // counters that must reach the given value (quick tier) or the run observed too little
 	ExtraArgs []string
 	Exhaust   bool
+	MaxPar    int // upper bound on concurrently running worker processes (0 = number of cores)
 }
 
 type finding struct {
@@ -178,6 +179,9 @@ func run(sp spec, tier string, seed int64, par int, keep bool, override int) int
 		par = runtime.NumCPU()
 		if par > 16 {
 			par = 16
+		}
+		if sp.MaxPar > 0 && par > sp.MaxPar {
+			par = sp.MaxPar
 		}
 	}
 	type job struct{ idx, from, to int }
